@@ -26,6 +26,7 @@ inductive Err where
   | sortMixed        -- an ordering raises, and which exception comes first depends on the sort algorithm
   | ambiguous        -- AmbiguousMethodException (two overloads accept the receiver, e.g. `delete` on a dict under yaql.iterableDicts)
   | tooLarge         -- CollectionTooLargeException (yaql.limitIterators)
+  | wrappedStop      -- WrappedException: a StopIteration met while the HOST consumes a lazy result (`yaql.convertOutputData` off)
   | outOfDomain      -- input outside the modelled domain (no prediction)
 deriving DecidableEq, Repr, Inhabited
 
@@ -758,6 +759,8 @@ structure Opts where
   convertInput : Bool := true
   /-- `yaql.limitIterators` (`none` = unlimited) -/
   limit : Option Nat := none
+  /-- `yaql.convertOutputData`: the result passes `convert_output_data`; off, `evaluate()` hands the run-time object out -/
+  convertOutput : Bool := true
 deriving Repr, DecidableEq, Inhabited
 
 /-- `utils.limit_iterable` over a one-shot iterator: after `n` elements the next pull raises - if there is a next
@@ -955,8 +958,30 @@ def finP (opts : Opts) : List (Value × Value) → R (List (Value × Value))
     pure ((k', v') :: r')
 end
 
+/-- with `yaql.convertOutputData` off `evaluate()` hands the run-time object out as it is - a tuple, a (mutable) list, a
+    frozenset (`Value.set`; so are the keys / items views), a dictionary, or something lazy (`iter`: what the host gets when
+    it consumes it, an exception if consuming raises).  No limiter is put around the result. -/
+def hostConsumes (s : LSeq) : R Value :=
+  match s.err with
+  | none => .ok (iter s.items)
+  -- yaql wraps a StopIteration that leaves a function call (it must not end the generators on the way); only `evaluate()`
+  -- unwraps it again - the host that consumes the result itself meets the wrapper
+  | some .stopIteration => .error .wrappedStop
+  | some e => .error e
+
+def rawOut (opts : Opts) : Obj → R Value
+  | .val v => .ok v
+  | .dset l => .ok (Value.set l)
+  | .view .values d => .ok (iter (dictValues d))
+  | .view k d => .ok (Value.set (viewElems k d))
+  | .mdict d => .ok (dict d)
+  | .opaque v => .ok v
+  | .lazy s => hostConsumes s
+  | o => do let s ← o.it { opts with limit := none }; hostConsumes s
+
 /-- the finalised result of a run-time object -/
 def finalise (opts : Opts) (o : Obj) : R Value :=
+  if !opts.convertOutput then rawOut opts o else
   match o with
   | .val v => finV opts v
   | .dset l => finV opts (Value.set l)
@@ -1179,7 +1204,9 @@ def runOp1 (opts : Opts) (op : Op) (o : Obj) : R Obj :=
       | v => pure (if isIterable v then elems v else [v])) s.items s.err))
   | .range1 stop => lazyOk (range 0 stop 1)
   | .range3 a b step => if step == some 0 then .error .value else lazyOk (range a b (step.getD 1))
-  | .sequenceTake a st n => if n < 0 then .error .value else lazyOk (sequenceTake (a.getD 0) (st.getD 1) n.toNat)
+  | .sequenceTake a st n =>
+    -- (the endless sequence is `take`'s receiver: it passes the limiter)
+    if n < 0 then .error .value else pure (.lazy (limitLazy opts ⟨sequenceTake (a.getD 0) (st.getD 1) n.toNat, none⟩))
   | .orderBy k => do let s ← o.it opts; pure (.ordering s [(k, true)])
   | .orderByDescending k => do let s ← o.it opts; pure (.ordering s [(k, false)])
   | .thenBy k => match o with
@@ -1214,18 +1241,19 @@ def runOp1 (opts : Opts) (op : Op) (o : Obj) : R Obj :=
     match o, times, n with
     | .val (iter _), _, _ | .lazy _, _, _ | .ordering _ _, _, _ | .view _ _, _, _ | .dset _, _, _ | .mdict _, _, _ | .opaque _, _, _ => .error .outOfDomain
     | .val v, some t, none => if t < 0 then .error .outOfDomain else lazyOk (repeatN v t.toNat)
-    | .val v, some t, some n => if n < 0 then .error .value else lazyOk (repeatN v (if t < 0 then n.toNat else min t.toNat n.toNat))
-    | .val v, none, some n => if n < 0 then .error .value else lazyOk (repeatN v n.toNat)
+    | .val v, some t, some n =>
+      if n < 0 then .error .value else pure (.lazy (limitLazy opts ⟨repeatN v (if t < 0 then n.toNat else min t.toNat n.toNat), none⟩))
+    | .val v, none, some n => if n < 0 then .error .value else pure (.lazy (limitLazy opts ⟨repeatN v n.toNat, none⟩))
     | .val _, none, none => .error .outOfDomain
   | .cycleTake n => do
     let s ← o.it opts
     if n < 0 then .error .value
     else
       -- cycle pulls the source while it delivers; only a failure met within the first `n` pulls shows
-      if n.toNat ≤ s.items.length then pure (.lazy ⟨s.items.take n.toNat, none⟩)
+      if n.toNat ≤ s.items.length then pure (.lazy (limitLazy opts ⟨s.items.take n.toNat, none⟩))
       else match s.err with
-        | some e => pure (.lazy ⟨s.items, some e⟩)
-        | none => lazyOk (cycleTake s.items n.toNat)
+        | some e => pure (.lazy (limitLazy opts ⟨s.items, some e⟩))
+        | none => pure (.lazy (limitLazy opts ⟨cycleTake s.items n.toNat, none⟩))
   | .takeWhile p => do let s ← o.it opts; pure (.lazy (LSeq.takeWhileM p.test s.items s.err))
   | .skipWhile p => do let s ← o.it opts; pure (.lazy (LSeq.dropWhileM p.test s.items s.err))
   | .indexOf v => do
@@ -1851,9 +1879,9 @@ def runObs (opts : Opts) (obs : Obs) (o : Obj) : R (List Obj ⊕ Obj) :=
 
 /-- finalisation of a list literal whose members are run-time objects: the literal is a tuple -/
 def finaliseParts (opts : Opts) (parts : List Obj) : R Value := do
-  if overLimit opts parts.length then .error .tooLarge
+  if opts.convertOutput && overLimit opts parts.length then .error .tooLarge
   let r ← parts.mapM (finalise opts)
-  pure (if opts.tuplesToLists then list r else tuple r)
+  pure (if opts.convertOutput && opts.tuplesToLists then list r else tuple r)
 
 /-- an observing program over the result of a pipeline -/
 def runObserve (opts : Opts) (binder : Option Op) (ops : List Op) (obs : Obs) (data : Value) : R Value := do
